@@ -308,6 +308,10 @@ def entry_nodes(rng, rel, kind, tag, link_target=None):
                 {'p': rel + '/ro', 't': 'd', 'm': 0o555},
                 {'p': rel + '/ro/inside', 't': 'f', 'c': '%s inside\n' % tag, 'm': 0o444},
                 {'p': rel + '/z-file', 't': 'f', 'c': '%s z\n' % tag}]
+    if kind == 'hardlinked':
+        # a file with a second name next to it: only the named one is trashed
+        return [{'p': rel, 't': 'f', 'c': 'content of %s\n' % tag, 'm': 0o644},
+                {'p': rel + '.second-name', 't': 'h', 'to': rel}]
     if kind in ('fifo', 'socket'):
         return [{'p': rel, 't': 'p' if kind == 'fifo' else 's',
                  'm': rng.choice([0o600, 0o644, 0o666])}]
